@@ -111,13 +111,25 @@ def handle (req : Json) : Except String Json := do
         let e ← (← (getArr req "eqs" : Except String (Array Json))).toList.mapM parseEq
         pure (ie, e)) : PM (List Equation × List Equation)).run' 0
     let envs ← (← getArr req "envs").toList.mapM parseEnv
+    -- optional: the substitution a simplification pass performed and the names it removed
+    let substJ := ((req.getObjVal? "subst").toOption.bind (·.getArr?.toOption)).getD #[]
+    let subst ← (substJ.toList.mapM (fun (j : Json) => do
+        let nm ← (getStr j "name" : Except String String)
+        let e ← parseExpr (← (getObj j "e" : Except String Json))
+        pure (nm, e)) : PM (List (String × Expr))).run' 1000
+    let removedJ := ((req.getObjVal? "removed").toOption.bind (·.getArr?.toOption)).getD #[]
+    let removed ← removedJ.toList.mapM (·.getStr?)
+    let ncalls := ((req.getObjVal? "ncalls").toOption.bind (·.getNat?.toOption)).getD 1
     match annotate (symsF.map (·.1)) t with
     | none => pure (Json.mkObj [("ok", true), ("verdict", "annotate:AssertionError")])
     | some syms' =>
       let cats : Cats := {
         cat := fun n => (syms'.find? (fun s => s.name == n)).map (·.cat)
         fixed := fun n => ((symsF.find? (fun p => p.1.name == n)).map (·.2)).getD false }
-      let tl := translate parsed.1 parsed.2
+      let σ : String → Option Expr := fun n => (subst.find? (fun p => p.1 == n)).map (·.2)
+      let gone : String → Bool := fun n => removed.contains n || (σ n).isSome
+      let cats := cats.remove gone
+      let tl := (translate parsed.1 parsed.2).simplify σ
       let v := verdict cats tl
       let values := envs.map fun ρ =>
         Json.arr ((evalArgs ρ tl.args).flatMap (fun p =>
@@ -125,6 +137,8 @@ def handle (req : Json) : Except String Json := do
       pure (Json.mkObj [("ok", true), ("verdict", verdictStr v),
         ("delay_states", jstrs (tl.args.map (fun a => delayName a.k))),
         ("ids", Json.arr (tl.args.map (fun a => Json.num (a.id : Int))).toArray),
+        ("calls", jstrs ((transferCalls (compileResult v) ncalls false).map
+            (fun r => match r with | .returned => "returned" | .raised => "raised"))),
         ("values", Json.arr values.toArray)])
   | o => throw s!"unknown-op {o}"
 
